@@ -632,6 +632,14 @@ let exec (s : t) (verbose : bool) (f : string array) (obs : string option) : str
      | Some { m_marker = Some _; m_hint = None; _ } -> "nohint"
      | _ -> "none")
   | "straylock" -> ""
+  | "hostileget" ->
+    (* concurrent readers of the first three live keys: for the model, reads of those keys *)
+    (match s.db with
+     | None -> "ok"
+     | Some d ->
+       let rec take n l = if n = 0 then [] else match l with [] -> [] | x :: r -> x :: take (n - 1) r in
+       let d' = List.fold_left (fun d k -> let ((d1, _), _) = db_get d k in d1) d (take 3 (db_list_keys d)) in
+       s.db <- Some d'; "ok")
   | "shardcount" ->
     (* the request may exceed OCaml's int: parsed as a Coq integer *)
     let a = f.(2) in
